@@ -238,6 +238,15 @@ func (in *Interp) reflectIntrinsic(fr *Frame, name string, args []Value) (Value,
 			st := rv.t.Underlying().(*types.Struct)
 			k := in.concreteInt(args[1], "reflect field")
 			return &RVal{t: st.Field(k).Type(), v: rv.v.(*Struct).fields[k].v}, true
+		case "CanInt":
+			kd := kindOf(rv.t)
+			return kd >= int64(reflect.Int) && kd <= int64(reflect.Int64), true
+		case "CanUint":
+			kd := kindOf(rv.t)
+			return kd >= int64(reflect.Uint) && kd <= int64(reflect.Uintptr), true
+		case "CanFloat":
+			kd := kindOf(rv.t)
+			return kd == int64(reflect.Float32) || kd == int64(reflect.Float64), true
 		case "Int":
 			if kd := kindOf(rv.t); kd < int64(reflect.Int) || kd > int64(reflect.Int64) {
 				panic(reflectPanic("reflect: call of reflect.Value.Int on " + rv.t.String() + " Value"))
